@@ -47,7 +47,8 @@ def tasks(tier):
                                          ("Policy.call", "AsyncRetry.execute"),
                                          ("Retry.call", "Retry.execute"),
                                          ("RetryCfg.call", "AsyncRetryCfg.execute"),
-                                         ("RetryPolicyCfg.execute", "Retry.call")]):
+                                         ("RetryPolicyCfg.execute", "Retry.call"),
+                                         ("RetryPolicySet.call", "AsyncRetryPolicySet.execute")]):
         cfg = dict(M=3 if tier == "thorough" else 2,
                    alphabet=["x:T", "ok", "r:T"] if tier == "thorough" else ["x:T", "ok"],
                    max_unknown=None,
@@ -58,6 +59,13 @@ def tasks(tier):
                         "entry": pat[0], "bound": 1, "entries": list(pat),
                         "ncalls": 3, "ticks": sorted({0, 1, W}),
                         "weight": 9 if mx == 2 else 4})
+    # an abort request arrives while a granted retry is running: the token stays spent
+    for mx, pat in itertools.product([1, 2], [("Retry.execute", "AsyncRetry.call"),
+                                              ("AsyncRetry.execute", "Policy.call")]):
+        cfg = dict(M=3, alphabet=["x:T", "ok"], max_unknown=None, abort=True, abort_mode="flag",
+                   budget={"max": mx, "window": 8}, strat_menu=[1])
+        out.append({"family": "budget-shared", "cfg": cfg, "entry": pat[0], "bound": 2,
+                    "entries": list(pat), "ncalls": 2, "ticks": [0], "weight": 6})
     return out
 
 
